@@ -51,6 +51,9 @@ func TestMain(m *testing.M) {
 		if rp.Phase == "two_connections" {
 			ev.RunReplay(rp, runCase2)
 		}
+		if rp.Phase == "real_socket" {
+			ev.RunReplay(rp, runReal)
+		}
 		ev.RunReplay(rp, func(c Case) *ev.Failure { return runCase(c, nil) })
 	}
 	rec = ev.New("C11", "streams of 1..6 messages built by the reference codec (templates; data sets of 1..n records, 20 bytes to ~65 KiB; optionally one invalid message - wrong version, data without template, undecodable template, header length < 20 or 0 - at any position; optionally an incomplete message at the end) x segmentations of the concatenated stream, presented to the collector's TCP connection handler through an in-memory connection whose Read returns exactly the generated segments: every single cut and every pair of cuts of short streams exhaustively, random multi-cuts (1-byte dribble, cuts inside the 4-byte length peek, cuts at message boundaries, coalesced) beyond; a second connection must then still be served; non-trivial = at least 2 messages and a cut strictly inside a message; distinct by hash of the case",
@@ -401,6 +404,153 @@ func runCase2(c Case2) *ev.Failure {
 	return nil
 }
 
+// runReal presents the same case to a collector listening on a real loopback socket: the client
+// writes the generated segments with TCP_NODELAY and short pauses, while a second connection
+// (other observation domain) sends its own messages concurrently and must be served completely.
+func runReal(c Case) *ev.Failure {
+	msgs, valid := build(c)
+	var stream []byte
+	for _, m := range msgs {
+		stream = append(stream, m...)
+	}
+	if c.Partial > 0 {
+		extra := ref.TemplateMessage(ref.Header{Domain: 3}, ref.Template{ID: 300, Fields: fields()[1]})
+		stream = append(stream, extra[:min(c.Partial, len(extra)-1)]...)
+	}
+	cp, err := collector.InitCollectingProcess(collector.CollectorInput{Address: "127.0.0.1:0", Protocol: "tcp", MaxBufferSize: 65535})
+	if err != nil {
+		return ev.Failf("InitCollectingProcess: %v", err)
+	}
+	go cp.Start()
+	for i := 0; i < 3000 && cp.GetAddress() == nil; i++ {
+		time.Sleep(time.Millisecond)
+	}
+	if cp.GetAddress() == nil {
+		return nil
+	}
+	var mu sync.Mutex
+	got := map[uint32][]*entities.Message{}
+	stopDrain := make(chan struct{})
+	drained := make(chan struct{})
+	go func() {
+		defer close(drained)
+		for {
+			select {
+			case m := <-cp.GetMsgChan():
+				mu.Lock()
+				got[m.GetObsDomainID()] = append(got[m.GetObsDomainID()], m)
+				mu.Unlock()
+			case <-stopDrain:
+				return
+			}
+		}
+	}()
+	defer func() { cp.Stop(); close(stopDrain); <-drained }()
+	fs := fields()
+	// the other connection
+	otherDone := make(chan struct{})
+	go func() {
+		defer close(otherDone)
+		conn, err := net.Dial("tcp", cp.GetAddress().String())
+		if err != nil {
+			return
+		}
+		defer conn.Close()
+		conn.Write(ref.TemplateMessage(ref.Header{Domain: 77, Seq: 0}, ref.Template{ID: 256, Fields: fs[0]}))
+		for k := 1; k <= 10; k++ {
+			conn.Write(ref.DataMessage(ref.Header{Domain: 77, Seq: uint32(k)}, ref.Template{ID: 256, Fields: fs[0]}, [][]ref.Value{{{B: []byte{1, 2, 3, byte(k)}}, {U: 6}}}))
+			time.Sleep(100 * time.Microsecond)
+		}
+		for end := time.Now().Add(20 * time.Second); time.Now().Before(end); time.Sleep(time.Millisecond) {
+			mu.Lock()
+			n := len(got[77])
+			mu.Unlock()
+			if n >= 11 {
+				return
+			}
+		}
+	}()
+	conn, err := net.Dial("tcp", cp.GetAddress().String())
+	if err != nil {
+		return nil
+	}
+	if tc, ok := conn.(*net.TCPConn); ok {
+		tc.SetNoDelay(true)
+	}
+	prev := 0
+	for _, cut := range append(append([]int(nil), c.Cuts...), len(stream)) {
+		if cut <= prev || cut > len(stream) {
+			continue
+		}
+		if _, err := conn.Write(stream[prev:cut]); err != nil {
+			break // the collector closed the connection (undecodable message): expected
+		}
+		prev = cut
+		time.Sleep(150 * time.Microsecond)
+	}
+	nexp := len(msgs)
+	for i, ok := range valid {
+		if !ok {
+			nexp = i
+			break
+		}
+	}
+	// wait for the expected deliveries, then for the collector's reaction to the end of the stream
+	for end := time.Now().Add(20 * time.Second); ; time.Sleep(200 * time.Microsecond) {
+		mu.Lock()
+		n := len(got[3])
+		mu.Unlock()
+		if n >= nexp {
+			break
+		}
+		if time.Now().After(end) {
+			conn.Close()
+			return ev.Failf("real socket: %d of the %d decodable messages before the first undecodable one were delivered (segments written with pauses at %v)", n, nexp, c.Cuts)
+		}
+	}
+	if nexp < len(msgs) {
+		// the collector must close the connection: a read sees EOF / reset
+		conn.SetReadDeadline(time.Now().Add(10 * time.Second))
+		if _, err := conn.Read(make([]byte, 1)); err == nil {
+			conn.Close()
+			return ev.Failf("real socket: the collector sent data instead of closing after an undecodable message")
+		} else if ne, ok := err.(net.Error); ok && ne.Timeout() {
+			conn.Close()
+			return ev.Failf("real socket: 10 s after an undecodable message the collector has not closed the connection")
+		}
+	}
+	conn.Close()
+	<-otherDone
+	time.Sleep(2 * time.Millisecond)
+	mu.Lock()
+	defer mu.Unlock()
+	if len(got[3]) != nexp {
+		return ev.Failf("real socket: %d messages delivered, the stream holds %d decodable messages before the first undecodable one / its end", len(got[3]), nexp)
+	}
+	for i, m := range got[3] {
+		h, _, _ := ref.ParseMessage(msgs[i][:16])
+		if m.GetSequenceNum() != h.Seq || int(m.GetMessageLen()) != len(msgs[i]) {
+			return ev.Failf("real socket: delivered message %d has (seq %d, len %d), the stream's message %d has (seq %d, len %d)", i, m.GetSequenceNum(), m.GetMessageLen(), i, h.Seq, len(msgs[i]))
+		}
+		if c.Msgs[i].Kind == "tpl" {
+			if _, f := glue.CheckTemplateMsg(m, msgs[i][20:]); f != nil {
+				return ev.Failf("real socket: delivered message %d: %s", i, f.Msg)
+			}
+		} else if f := glue.CheckDataMsg(m, fs[c.Msgs[i].Tpl%len(fs)], msgs[i][20:], collector.DecodingModeStrict); f != nil {
+			return ev.Failf("real socket: delivered message %d: %s", i, f.Msg)
+		}
+	}
+	if len(got[77]) != 11 {
+		return ev.Failf("real socket: the other connection delivered %d of its 11 messages while this one was served", len(got[77]))
+	}
+	for k, m := range got[77] {
+		if int(m.GetSequenceNum()) != k {
+			return ev.Failf("real socket: the other connection's delivery %d is its message %d", k, m.GetSequenceNum())
+		}
+	}
+	return nil
+}
+
 func lens(ch [][]byte) []int {
 	var out []int
 	for _, c := range ch {
@@ -495,7 +645,7 @@ func TestC11(t *testing.T) {
 			}
 		}
 	}
-	ev.Rapid(t, rec, "random", rec.Scale(6000, 500000), func(t *rapid.T) Case {
+	genRandom := func(t *rapid.T) Case {
 		var c Case
 		n := rapid.IntRange(1, 6).Draw(t, "n")
 		bad := -1
@@ -556,7 +706,15 @@ func TestC11(t *testing.T) {
 			c.Cuts = sortUniq(c.Cuts)
 		}
 		return c
-	}, func(c Case) *ev.Failure { return runRecorded("random", c) })
+	}
+	if !ev.Rapid(t, rec, "random", rec.Scale(6000, 500000), genRandom, func(c Case) *ev.Failure { return runRecorded("random", c) }) {
+		return
+	}
+	// the same generator against a real loopback socket, with a second connection in parallel
+	ev.Rapid(t, rec, "real_socket", rec.Scale(150, 6000), genRandom, func(c Case) *ev.Failure {
+		rec.Case(ev.Hash([]any{"real", c}), len(c.Msgs) >= 2 && len(c.Cuts) > 0, "real_socket")
+		return runReal(c)
+	})
 }
 
 func sortUniq(a []int) []int {
